@@ -231,3 +231,12 @@ Theorem c03_a_promised_id_is_fresh_and_becomes_a_component_less_entity :
     end.
 Proof. exact quiet_reservation_is_kept_nocap. Qed.
 Print Assumptions c03_a_promised_id_is_fresh_and_becomes_a_component_less_entity.
+
+(* "and stays valid until that entity is despawned": a live id stays live (and the entity map well formed) through every
+   delivery of an event that is not a Despawn - whatever the handlers do, whatever else the delivery creates or moves.
+   (Which entity a Despawn delivery removes is c03_removing_an_entity_makes_its_id_dead: the one stored at the target's row.) *)
+Theorem c03_a_live_id_stays_live_through_every_delivery_but_a_despawn :
+  forall (k : key) (beh : hinfo -> logent -> N -> script) (it : qitem) (w : world),
+    LV k w -> item_kind w it <> Some KDespawn -> LV k (snd (fst (deliver_one beh it w))).
+Proof. exact live_until_despawned. Qed.
+Print Assumptions c03_a_live_id_stays_live_through_every_delivery_but_a_despawn.
